@@ -2,6 +2,7 @@ package main
 
 import (
 	"fmt"
+	"strconv"
 	"strings"
 
 	"verif/harness/model"
@@ -15,6 +16,7 @@ type Step struct {
 	Adv  int64    `json:"adv_ns,omitempty"`
 	DB   *int     `json:"db,omitempty"`
 	Tick bool     `json:"tick,omitempty"`
+	Conn string   `json:"conn,omitempty"` // "" = embedded caller; otherwise the name of a TCP connection
 }
 
 func (s Step) String() string {
@@ -27,6 +29,9 @@ func (s Step) String() string {
 	}
 	if s.Tick {
 		sb.WriteString("[tick] ")
+	}
+	if s.Conn != "" {
+		sb.WriteString(s.Conn + "> ")
 	}
 	for i, a := range s.Argv {
 		if i > 0 {
@@ -76,6 +81,12 @@ type Session struct {
 	noFilter   bool // witness lanes: do not filter known findings
 	skipModel  bool
 	tickSample bool
+	// TCP connections (name -> client and the database the reference says it has selected)
+	conns  map[string]*Client
+	connDB map[string]int
+	port   int
+	// extra per-step observer (e.g. non-interference of bookkeeping), called with the dumps around the step
+	after func(step Step, db int, before, afterDump interface{}) *Violation
 }
 
 func NewSession(ctx *Ctx, lane string, in *Inst) *Session {
@@ -122,11 +133,13 @@ func argShape(argv []string) string {
 	return fmt.Sprintf("%s/%d/%s", strings.ToLower(argv[0]), len(argv), strings.Join(kws, ","))
 }
 
-func (s *Session) preKind(argv []string) string {
+func (s *Session) preKind(argv []string) string { return s.preKindDB(argv, s.db) }
+
+func (s *Session) preKindDB(argv []string, db int) string {
 	if len(argv) < 2 {
 		return "-"
 	}
-	e := s.st.DBs[s.db][argv[1]]
+	e := s.st.DBs[db][argv[1]]
 	if e == nil {
 		return "absent"
 	}
@@ -138,6 +151,45 @@ func (s *Session) preKind(argv []string) string {
 }
 
 func (s *Session) env() model.Env { return model.Env{Now: s.in.Clk.NowNs(), DB: s.db} }
+
+// dbOf returns the database the reference says the step's caller has selected.
+func (s *Session) dbOf(step Step) int {
+	if step.Conn == "" {
+		return s.db
+	}
+	return s.connDB[step.Conn]
+}
+
+// do executes argv on behalf of the step's caller.
+func (s *Session) do(step Step) (resp.Value, []byte, string) {
+	if step.Conn == "" {
+		return s.in.Do(step.Argv...)
+	}
+	c, ok := s.conns[step.Conn]
+	if !ok {
+		var err error
+		c, err = Dial(s.port)
+		if err != nil {
+			return resp.Value{Kind: resp.Error, Str: "DIAL"}, nil, "cannot connect: " + err.Error()
+		}
+		if s.conns == nil {
+			s.conns = map[string]*Client{}
+			s.connDB = map[string]int{}
+		}
+		s.conns[step.Conn] = c
+	}
+	v, raw, err := c.Do(step.Argv...)
+	if err != nil {
+		return resp.Value{Kind: resp.Error, Str: "IO"}, raw, "connection failed or malformed reply: " + err.Error()
+	}
+	return v, raw, ""
+}
+
+func (s *Session) closeConns() {
+	for _, c := range s.conns {
+		c.Close()
+	}
+}
 
 // Exec executes one step and checks it against the model.
 func (s *Session) Exec(step Step) StepResult {
@@ -171,7 +223,12 @@ func (s *Session) Exec(step Step) StepResult {
 		return res
 	}
 	env := s.env()
+	env.DB = s.dbOf(step)
 	s.st.Purge(env.Now)
+	if r, handled := s.connCommand(step, env); handled {
+		s.trace = append(s.trace, step)
+		return r
+	}
 	if !s.noFilter {
 		if id := matchFinding(s.ctx.Prop, s.st, env, step.Argv); id != "" {
 			s.ctx.Filtered(id)
@@ -184,10 +241,10 @@ func (s *Session) Exec(step Step) StepResult {
 		}
 	}
 	s.trace = append(s.trace, step)
-	pre := s.preKind(step.Argv)
+	pre := s.preKindDB(step.Argv, env.DB)
 	outs := model.Step(s.st, env, step.Argv)
 	before := s.canonModel()
-	v, raw, crash := s.in.Do(step.Argv...)
+	v, raw, crash := s.do(step)
 	res.Reply = v
 	caseOf := func() map[string]interface{} {
 		return map[string]interface{}{"program": s.trace, "program_text": progStrings(s.trace), "reply": string(trunc(string(raw), 300))}
@@ -336,4 +393,77 @@ func reportProgramViolation(ctx *Ctx, lane string, mk func() *Inst, prog []Step,
 		}
 	}
 	ctx.Violate(*v)
+}
+
+// connCommand handles the connection-level commands that the data models do not know:
+// SELECT (per connection) and SWAPDB (all TCP connections). Embedded callers select with Step.DB.
+func (s *Session) connCommand(step Step, env model.Env) (StepResult, bool) {
+	var res StepResult
+	if len(step.Argv) == 0 || step.Conn == "" {
+		return res, false
+	}
+	name := strings.ToLower(step.Argv[0])
+	if name != "select" && name != "swapdb" {
+		return res, false
+	}
+	v, raw, crash := s.do(step)
+	res.Reply = v
+	fail := func(what string) (StepResult, bool) {
+		full := append(append([]Step{}, s.trace...), step)
+		res.Vio = &Violation{Kind: "reply", Lane: s.lane, What: fmt.Sprintf("%s replied %s: %s", step.String(), trunc(v.String(), 100), what),
+			Case: map[string]interface{}{"program": full, "program_text": progStrings(full), "reply": string(raw)}, Key: s.lane + "|conn|" + name + "|" + what}
+		return res, true
+	}
+	if crash != "" {
+		return fail(crash)
+	}
+	idx := func(a string) (int, bool) {
+		n, err := strconv.Atoi(a)
+		return n, err == nil && n >= 0 && n < 1<<20
+	}
+	switch name {
+	case "select":
+		n, ok := 0, false
+		if len(step.Argv) == 2 {
+			n, ok = idx(step.Argv[1])
+		}
+		if !ok {
+			if !v.IsError() {
+				return fail("an invalid SELECT must fail")
+			}
+			return res, true
+		}
+		if v.IsError() {
+			return fail("a valid SELECT must succeed")
+		}
+		s.connDB[step.Conn] = n
+	case "swapdb":
+		a, oka, b, okb := 0, false, 0, false
+		if len(step.Argv) == 3 {
+			a, oka = idx(step.Argv[1])
+			b, okb = idx(step.Argv[2])
+		}
+		if !oka || !okb {
+			if !v.IsError() {
+				return fail("an invalid SWAPDB must fail")
+			}
+			return res, true
+		}
+		if v.IsError() {
+			return fail("a valid SWAPDB must succeed")
+		}
+		for c, d := range s.connDB {
+			if d == a {
+				s.connDB[c] = b
+			} else if d == b {
+				s.connDB[c] = a
+			}
+		}
+	}
+	// the dataset itself must not change
+	if d := model.DiffCanon(s.st.CanonAt(env.Now), CanonDump(s.in.S.VerifDump(), env.Now)); d != "" {
+		return fail("the dataset changed: " + d)
+	}
+	s.ctx.Class(fmt.Sprintf("conn|%s|%s", name, outcomeClass(v)))
+	return res, true
 }
